@@ -20,21 +20,49 @@
 #include "work_stealing_deque.h"
 
 #define ARENA_BYTES (1 << 20)
+#define MAX_ARRAYS 64
 static char arena[ARENA_BYTES] __attribute__((aligned(64)));
 static size_t arena_used;
 static int narrays;
+static struct { char* p; size_t n; int freed; } arr_tab[MAX_ARRAYS + 1];
 
 void* h_wsd_malloc(size_t n) {
   size_t need = (n + 63) & ~(size_t)63;
-  if (arena_used + need > ARENA_BYTES) return NULL;
+  if (arena_used + need > ARENA_BYTES || narrays >= MAX_ARRAYS) return NULL;
   char* p = arena + arena_used;
   arena_used += need;
   int k = ++narrays;
+  arr_tab[k].p = p; arr_tab[k].n = n; arr_tab[k].freed = 0;
   rt_reg(p + sizeof(wsd_circular_array_t), n - sizeof(wsd_circular_array_t), 1000 * k, 8);
   rt_name(p, n, k, (int)n);
   return p;
 }
-void h_wsd_free(void* p) { (void)p; }
+
+/* The code under test never frees an array while the deque is in use (only in
+ * wsd_work_stealing_deque_destroy, which the harness never calls), so a
+ * pristine trace contains no free event.  If it does free array k:
+ *   - the trace gets the event  tid (990+k) 919 1  (the model has no such event),
+ *   - the element area is poisoned with 0x5a bytes, the way re-used memory
+ *     would hold foreign data: a later read of a slot yields 0x5a5a5a5a5a5a5a5a
+ *     (printed -777777 by rt_canon, returned raw as H_WSD_POISON),
+ *   - the range stays registered, so any later access to it is in the trace.
+ * The header is left intact (prev chain stays walkable).  The poisoning loop is
+ * not instrumented: it must not be a scheduling point. */
+__attribute__((no_sanitize_thread, noinline))
+static void h_wsd_poison(char* q, size_t n) {
+  volatile unsigned char* v = (volatile unsigned char*)q;
+  for (size_t i = 0; i < n; i++) v[i] = 0x5a;
+}
+void h_wsd_free(void* p) {
+  for (int k = 1; k <= narrays; k++) {
+    if (arr_tab[k].p == (char*)p && !arr_tab[k].freed) {
+      arr_tab[k].freed = 1;
+      rt_event(990 + k, K_EV, 1);
+      h_wsd_poison(arr_tab[k].p + sizeof(wsd_circular_array_t), arr_tab[k].n - sizeof(wsd_circular_array_t));
+      return;
+    }
+  }
+}
 
 static wsd_work_stealing_deque_t D;
 static hcase_t* cur;
